@@ -57,6 +57,14 @@ def _kind(n):
     return "?"
 
 
+def _vj(v):
+    """shape-only projection for probes; a value too big to carry is a wildcard"""
+    try:
+        return runner.value_json(v, force=False, limit=60)
+    except runner.TooBig:
+        return {"w": 1}
+
+
 def probe(nid, stack, ctx):
     st = ST
     if not st.on:
@@ -70,10 +78,10 @@ def probe(nid, stack, ctx):
         raise ProbeBudget()
     st.events.append({
         "ev": "Probe", "sig": st.sigs.get(nid, {"t": "?", "k": "", "v": []}),
-        "stack": [runner.value_json(v, force=False) for v in stack],
+        "stack": [_vj(v) for v in stack],
         "d": [len(ctx.context_values), len(ctx.inputs), len(ctx.stacks), len(ctx.function_stack)],
-        "ctx": runner.value_json(ctx.context_values[-1], force=False) if ctx.context_values else {"x": "empty"},
-        "reg": runner.value_json(ctx.register, force=False),
+        "ctx": _vj(ctx.context_values[-1]) if ctx.context_values else {"x": "empty"},
+        "reg": _vj(ctx.register),
     })
 
 
@@ -167,7 +175,7 @@ def run_traced(text, flags="", inputs=(), budget=200, online=False):
                 final_stack = common.with_alarm(
                     lambda _: [runner.value_json(v, force=True, limit=60)
                                for v in (ctx.stacks[0] if ctx and ctx.stacks else [])], None, 4)
-            except (ProbeBudget, common.CaseTimeout, RecursionError):
+            except (ProbeBudget, common.CaseTimeout, RecursionError, runner.TooBig):
                 final_stack = []
                 raised = raised or "budget"      # not evaluated
             except BaseException as e:  # noqa: BLE001  forcing a lazy value may raise
@@ -180,6 +188,6 @@ def run_traced(text, flags="", inputs=(), budget=200, online=False):
     if raised in ("budget", "timeout", "RecursionError"):
         events = []  # the run is not evaluated (skip:impl-...); its probes would only cost validation time
     events.append({"ev": "Final", "stack": final_stack, "out": common.cps(cap.text), "d": d, "raised": raised,
-                   "ctx": runner.value_json(ctx.context_values[-1], force=False) if ctx and ctx.context_values else {"x": "empty"}})
+                   "ctx": _vj(ctx.context_values[-1]) if ctx and ctx.context_values else {"x": "empty"}})
     return {"text": common.cps(text), "flags": sorted(set(flags)), "inputs": [runner.value_json(x) for x in inputs],
             "ev": events}
